@@ -10,6 +10,7 @@ import (
 	"os"
 	"path/filepath"
 	"strings"
+	htmltemplate "html/template"
 	texttemplate "text/template"
 
 	mail "github.com/wneessen/go-mail"
@@ -26,6 +27,7 @@ type PartSpec struct {
 	Desc    string  `json:"desc,omitempty"`
 	Content []byte  `json:"content"`
 	Fails   bool    `json:"fails,omitempty"`
+	Deleted bool    `json:"deleted,omitempty"` // Part.Delete() after the part was added
 	chunks  [][]byte
 }
 
@@ -99,6 +101,9 @@ type GenOp struct {
 	Key    string   `json:"key"`
 	Values []string `json:"values"`
 	Pre    bool     `json:"pre,omitempty"`
+	// Conv: a convenience setter instead of SetGenHeader: bulk | importance-low | importance-high |
+	// importance-nonurgent | importance-urgent | importance-normal | org | ua | msgid | mdn
+	Conv string `json:"conv,omitempty"`
 }
 
 type MsgSpec struct {
@@ -111,6 +116,10 @@ type MsgSpec struct {
 	Parts    []PartSpec `json:"parts,omitempty"`
 	Files    []FileSpec `json:"files,omitempty"`
 	SMIME    string     `json:"smime,omitempty"` // "", "rsa", "ecdsa" (+"+ic" with intermediate)
+	// Variant != 0: the message is built through equivalent API entry points chosen from this seed
+	// (setters instead of options, per-header helpers, string / template bodies, fields set after the
+	// fact, Reset before building, ...). The operations sent to the model are the same.
+	Variant uint64 `json:"variant,omitempty"`
 }
 
 var addrKinds = []mail.AddrHeader{mail.HeaderFrom, mail.HeaderEnvelopeFrom, mail.HeaderTo, mail.HeaderCc, mail.HeaderBcc, mail.HeaderReplyTo}
@@ -148,41 +157,185 @@ func producer(chunks [][]byte, fails bool) func(io.Writer) (int64, error) {
 func (sp *MsgSpec) Build() (*mail.Msg, []string, error) {
 	var ops []string
 	var opts []mail.MsgOption
+	vr := NewRng(sp.Variant, "api-variant")
+	pick := func(n int) int {
+		if sp.Variant == 0 {
+			return 0
+		}
+		return vr.Intn(n)
+	}
+	var later []func(m *mail.Msg)
 	if sp.Charset != "" {
-		opts = append(opts, mail.WithCharset(mail.Charset(sp.Charset)))
+		if pick(2) == 1 {
+			later = append(later, func(m *mail.Msg) { m.SetCharset(mail.Charset(sp.Charset)) })
+		} else {
+			opts = append(opts, mail.WithCharset(mail.Charset(sp.Charset)))
+		}
 		ops = append(ops, "charset", encS(sp.Charset))
 	}
 	if sp.Encoding != "" {
-		opts = append(opts, mail.WithEncoding(mail.Encoding(sp.Encoding)))
+		if pick(2) == 1 {
+			later = append(later, func(m *mail.Msg) { m.SetEncoding(mail.Encoding(sp.Encoding)) })
+		} else {
+			opts = append(opts, mail.WithEncoding(mail.Encoding(sp.Encoding)))
+		}
 		ops = append(ops, "encoding", encS(sp.Encoding))
 	}
 	if sp.Boundary != "" {
-		opts = append(opts, mail.WithBoundary(sp.Boundary))
+		if pick(2) == 1 {
+			later = append(later, func(m *mail.Msg) { m.SetBoundary(sp.Boundary) })
+		} else {
+			opts = append(opts, mail.WithBoundary(sp.Boundary))
+		}
 		ops = append(ops, "boundary", encS(sp.Boundary))
 	}
 	if sp.NoUA {
 		opts = append(opts, mail.WithNoDefaultUserAgent())
 		ops = append(ops, "noua")
 	}
+	if pick(3) == 1 {
+		opts = append(opts, mail.WithMIMEVersion(mail.MIME10))
+	}
 	m := mail.NewMsg(opts...)
+	for _, f := range later {
+		f(m)
+	}
+	if pick(4) == 1 {
+		// a used message that is reset starts over (Reset keeps charset, encoding, boundary)
+		m.Subject("left over")
+		_ = m.From("left.over@example.com")
+		_ = m.To("left.over@example.com", "second.left.over@example.com")
+		_ = m.Bcc("hidden.left.over@example.com")
+		m.SetBodyString(mail.TypeTextPlain, "left over body")
+		m.AddAlternativeString(mail.TypeTextHTML, "<p>left over</p>")
+		_ = m.AttachReader("left-over.txt", strings.NewReader("left over attachment"))
+		_ = m.EmbedReader("left-over.png", strings.NewReader("left over embed"))
+		m.Reset()
+	}
+	gen := func(key string, values ...string) {
+		ops = append(ops, "gen", encS(key), encLS(values))
+	}
 	for _, g := range sp.Gen {
 		if g.Pre {
-			m.SetGenHeaderPreformatted(mail.Header(g.Key), g.Values[0])
+			if pick(2) == 1 {
+				m.SetHeaderPreformatted(mail.Header(g.Key), g.Values[0])
+			} else {
+				m.SetGenHeaderPreformatted(mail.Header(g.Key), g.Values[0])
+			}
 			ops = append(ops, "pre", encS(g.Key), encS(g.Values[0]))
 			continue
 		}
+		v0 := ""
+		if len(g.Values) > 0 {
+			v0 = g.Values[0]
+		}
+		switch g.Conv {
+		case "bulk":
+			m.SetBulk()
+			gen("Precedence", "bulk")
+			gen("X-Auto-Response-Suppress", "All")
+			continue
+		case "importance-low", "importance-high", "importance-nonurgent", "importance-urgent", "importance-normal":
+			imp := map[string]mail.Importance{"importance-low": mail.ImportanceLow, "importance-high": mail.ImportanceHigh,
+				"importance-nonurgent": mail.ImportanceNonUrgent, "importance-urgent": mail.ImportanceUrgent, "importance-normal": mail.ImportanceNormal}[g.Conv]
+			m.SetImportance(imp)
+			tab := map[string][3]string{"importance-low": {"low", "0", "5"}, "importance-high": {"high", "1", "1"},
+				"importance-nonurgent": {"non-urgent", "0", "5"}, "importance-urgent": {"urgent", "1", "1"}}
+			if t, ok := tab[g.Conv]; ok {
+				gen("Importance", t[0])
+				gen("Priority", t[1])
+				gen("X-Priority", t[2])
+				gen("X-MSMail-Priority", t[1])
+			}
+			continue
+		case "org":
+			m.SetOrganization(v0)
+			gen("Organization", v0)
+			continue
+		case "ua":
+			m.SetUserAgent(v0)
+			gen("User-Agent", v0)
+			gen("X-Mailer", v0)
+			continue
+		case "msgid":
+			m.SetMessageIDWithValue(v0)
+			gen("Message-ID", "<"+v0+">")
+			continue
+		case "mdn":
+			var strs []string
+			okAll := true
+			for _, v := range g.Values {
+				ad, err := netmail.ParseAddress(v)
+				if err != nil {
+					okAll = false
+					break
+				}
+				strs = append(strs, mail.VerifAddressString(ad))
+			}
+			err := m.RequestMDNTo(g.Values...)
+			if (err == nil) != okAll {
+				return nil, nil, fmt.Errorf("RequestMDNTo: error %v, but net/mail accepts all addresses: %v", err, okAll)
+			}
+			if okAll {
+				gen("Disposition-Notification-To", strs...)
+			}
+			continue
+		}
 		vals := append([]string(nil), g.Values...) // SetGenHeader encodes in place
-		m.SetGenHeader(mail.Header(g.Key), vals...)
+		switch {
+		case pick(3) == 1:
+			m.SetHeader(mail.Header(g.Key), vals...)
+		case g.Key == "Subject" && len(vals) == 1 && pick(2) == 1:
+			m.Subject(vals[0])
+		default:
+			m.SetGenHeader(mail.Header(g.Key), vals...)
+		}
 		ops = append(ops, "gen", encS(g.Key), encLS(g.Values))
 	}
 	for _, a := range sp.Addr {
 		oks, strs, bares := parseAll(m, a)
 		switch a.Mode {
 		case "set":
-			_ = m.SetAddrHeader(addrKinds[a.Kind], a.Values...)
+			joinable := len(a.Values) > 0
+			for _, v := range a.Values {
+				if strings.Contains(v, ",") || strings.TrimSpace(v) != v || v == "" {
+					joinable = false
+				}
+			}
+			switch v := pick(3); {
+			case v == 1 && a.Kind == 0 && len(a.Values) == 1:
+				_ = m.From(a.Values[0])
+			case v == 1 && a.Kind == 1 && len(a.Values) == 1:
+				_ = m.EnvelopeFrom(a.Values[0])
+			case v == 1 && a.Kind == 5 && len(a.Values) == 1:
+				_ = m.ReplyTo(a.Values[0])
+			case v == 1 && a.Kind == 2:
+				_ = m.To(a.Values...)
+			case v == 1 && a.Kind == 3:
+				_ = m.Cc(a.Values...)
+			case v == 1 && a.Kind == 4:
+				_ = m.Bcc(a.Values...)
+			case v == 2 && a.Kind == 2 && joinable:
+				_ = m.ToFromString(strings.Join(a.Values, ", "))
+			case v == 2 && a.Kind == 3 && joinable:
+				_ = m.CcFromString(strings.Join(a.Values, " ,"))
+			case v == 2 && a.Kind == 4 && joinable:
+				_ = m.BccFromString(strings.Join(a.Values, ","))
+			default:
+				_ = m.SetAddrHeader(addrKinds[a.Kind], a.Values...)
+			}
 			ops = append(ops, "addr", encN(a.Kind), encLS(oks), encLS(strs), encLS(bares))
 		case "ign":
-			m.SetAddrHeaderIgnoreInvalid(addrKinds[a.Kind], a.Values...)
+			switch v := pick(2); {
+			case v == 1 && a.Kind == 2:
+				m.ToIgnoreInvalid(a.Values...)
+			case v == 1 && a.Kind == 3:
+				m.CcIgnoreInvalid(a.Values...)
+			case v == 1 && a.Kind == 4:
+				m.BccIgnoreInvalid(a.Values...)
+			default:
+				m.SetAddrHeaderIgnoreInvalid(addrKinds[a.Kind], a.Values...)
+			}
 			ops = append(ops, "addrign", encN(a.Kind), encLS(oks), encLS(strs), encLS(bares))
 		case "add":
 			// AddTo / AddCc / AddBcc are addAddr on the respective header
@@ -222,24 +375,101 @@ func (sp *MsgSpec) Build() (*mail.Msg, []string, error) {
 		}
 		op := "alt"
 		if i == 0 {
-			m.SetBodyWriter(mail.ContentType(p.CType), producer(chunks, p.Fails), po...)
 			op = "body"
-		} else {
-			m.AddAlternativeWriter(mail.ContentType(p.CType), producer(chunks, p.Fails), po...)
+		}
+		ct := mail.ContentType(p.CType)
+		variant := pick(4)
+		var terr error
+		switch {
+		case variant == 1 && !p.Fails:
+			// the string entry points
+			if i == 0 {
+				m.SetBodyString(ct, string(p.Content), po...)
+			} else {
+				m.AddAlternativeString(ct, string(p.Content), po...)
+			}
+		case variant == 2:
+			// everything but the content set on the Part after the fact
+			if i == 0 {
+				m.SetBodyWriter("application/x-placeholder", producer(chunks, p.Fails))
+			} else {
+				m.AddAlternativeWriter("application/x-placeholder", producer(chunks, p.Fails))
+			}
+			parts := m.GetParts()
+			part := parts[len(parts)-1]
+			part.SetContentType(ct)
+			if p.Charset != nil {
+				part.SetCharset(mail.Charset(*p.Charset))
+			}
+			if p.Enc != nil {
+				part.SetEncoding(mail.Encoding(*p.Enc))
+			}
+			if p.Desc != "" {
+				part.SetDescription(p.Desc)
+			}
+		case variant == 3 && !p.Fails && p.CType == "text/plain":
+			tpl, perr := texttemplate.New("t").Parse("{{.}}")
+			if perr != nil {
+				return nil, nil, perr
+			}
+			if i == 0 {
+				terr = m.SetBodyTextTemplate(tpl, string(p.Content), po...)
+			} else {
+				terr = m.AddAlternativeTextTemplate(tpl, string(p.Content), po...)
+			}
+		case variant == 3 && !p.Fails && p.CType == "text/html":
+			tpl, perr := htmltemplate.New("t").Parse("{{.}}")
+			if perr != nil {
+				return nil, nil, perr
+			}
+			if i == 0 {
+				terr = m.SetBodyHTMLTemplate(tpl, htmltemplate.HTML(p.Content), po...)
+			} else {
+				terr = m.AddAlternativeHTMLTemplate(tpl, htmltemplate.HTML(p.Content), po...)
+			}
+		default:
+			if i == 0 {
+				m.SetBodyWriter(ct, producer(chunks, p.Fails), po...)
+			} else {
+				m.AddAlternativeWriter(ct, producer(chunks, p.Fails), po...)
+			}
+		}
+		if terr != nil {
+			return nil, nil, terr
 		}
 		ops = append(ops, op, encS(p.CType), cs, en, encS(p.Desc), encB(p.Content), encBool(p.Fails))
+	}
+	for i := range sp.Parts {
+		if sp.Parts[i].Deleted {
+			m.GetParts()[i].Delete()
+			ops = append(ops, "delpart", encN(i))
+		}
 	}
 	for i := range sp.Files {
 		f := &sp.Files[i]
 		var fo []mail.FileOption
+		var fieldsLater []func(fl *mail.File)
+		afterwards := pick(3) == 1
 		if f.CType != "" {
-			fo = append(fo, mail.WithFileContentType(mail.ContentType(f.CType)))
+			if afterwards {
+				fieldsLater = append(fieldsLater, func(fl *mail.File) { fl.ContentType = mail.ContentType(f.CType) })
+			} else {
+				fo = append(fo, mail.WithFileContentType(mail.ContentType(f.CType)))
+			}
 		}
 		if f.Desc != "" {
-			fo = append(fo, mail.WithFileDescription(f.Desc))
+			if afterwards {
+				fieldsLater = append(fieldsLater, func(fl *mail.File) { fl.Desc = f.Desc })
+			} else {
+				fo = append(fo, mail.WithFileDescription(f.Desc))
+			}
 		}
 		if f.Enc != "" {
-			fo = append(fo, mail.WithFileEncoding(mail.Encoding(f.Enc)))
+			if afterwards && f.Enc != "quoted-printable" {
+				fieldsLater = append(fieldsLater, func(fl *mail.File) { fl.Enc = mail.Encoding(f.Enc) })
+			} else {
+				fo = append(fo, mail.WithFileEncoding(mail.Encoding(f.Enc)))
+			}
 		}
 		cid := "-"
 		if f.CID != nil {
@@ -305,6 +535,19 @@ func (sp *MsgSpec) Build() (*mail.Msg, []string, error) {
 		if err != nil {
 			return nil, nil, err
 		}
+		if len(fieldsLater) > 0 {
+			var fl *mail.File
+			if f.Attach {
+				l := m.GetAttachments()
+				fl = l[len(l)-1]
+			} else {
+				l := m.GetEmbeds()
+				fl = l[len(l)-1]
+			}
+			for _, set := range fieldsLater {
+				set(fl)
+			}
+		}
 		if f.Fails {
 			var fl *mail.File
 			if f.Attach {
@@ -327,6 +570,18 @@ func (sp *MsgSpec) Build() (*mail.Msg, []string, error) {
 			continue
 		}
 		ops = append(ops, "file", encBool(f.Attach), encS(f.Name), encS(f.CType), encS(f.Desc), encS(modelEnc), cid, encS(tbe), encB(f.Content), encBool(f.Fails))
+	}
+	switch pick(4) {
+	case 1:
+		// the list setters, fed with what the getters return
+		m.SetAttachments(m.GetAttachments())
+		m.SetEmbeds(m.GetEmbeds())
+	case 2:
+		att, emb := m.GetAttachments(), m.GetEmbeds()
+		m.UnsetAllAttachments()
+		m.UnsetAllEmbeds()
+		m.SetAttachments(att)
+		m.SetEmbeds(emb)
 	}
 	if sp.SMIME != "" {
 		if err := signWith(m, sp.SMIME); err != nil {
@@ -470,6 +725,7 @@ type genOpts struct {
 	encodings          []string
 	noFails            bool
 	smallContent       bool
+	noVariants         bool // canonical API entry points only, no deleted parts
 }
 
 func genSpec(r *Rng, o genOpts) *MsgSpec {
@@ -506,6 +762,27 @@ func genSpec(r *Rng, o genOpts) *MsgSpec {
 			}
 		}
 		spc.Gen = append(spc.Gen, g)
+	}
+	if r.Chance(25) {
+		// the convenience setters
+		switch r.Intn(6) {
+		case 0:
+			spc.Gen = append(spc.Gen, GenOp{Conv: "bulk"})
+		case 1:
+			spc.Gen = append(spc.Gen, GenOp{Conv: []string{"importance-low", "importance-high", "importance-nonurgent", "importance-urgent", "importance-normal"}[r.Intn(5)]})
+		case 2:
+			spc.Gen = append(spc.Gen, GenOp{Conv: "org", Values: []string{genText(r, 5)}})
+		case 3:
+			spc.Gen = append(spc.Gen, GenOp{Conv: "ua", Values: []string{genHeaderValue(r)}})
+		case 4:
+			spc.Gen = append(spc.Gen, GenOp{Conv: "msgid", Values: []string{[]string{"fixed.id@example.com", genText(r, 2), "a b@c", "x@y>\r\nInjected: 1"}[r.Intn(4)]}})
+		default:
+			g := GenOp{Conv: "mdn"}
+			for j := 0; j < 1+r.Intn(2); j++ {
+				g.Values = append(g.Values, genAddrValue(r))
+			}
+			spc.Gen = append(spc.Gen, g)
+		}
 	}
 	if r.Chance(10) {
 		spc.Gen = append(spc.Gen, GenOp{Key: "X-Preformatted", Values: []string{"line one\r\n line two"}, Pre: true})
@@ -561,6 +838,7 @@ func genSpec(r *Rng, o genOpts) *MsgSpec {
 	if o.smallContent {
 		clen = 40
 	}
+	anyDeleted := false
 	for i := 0; i < np; i++ {
 		p := PartSpec{CType: ctypes[r.Intn(len(ctypes))], Content: genBody(r, genLen(r, clen))}
 		if r.Chance(20) {
@@ -581,6 +859,12 @@ func genSpec(r *Rng, o genOpts) *MsgSpec {
 		p.chunks = genChunks(r, p.Content)
 		if !o.noFails && r.Chance(4) {
 			p.Fails = true
+		}
+		if !o.noVariants && np >= 2 && !anyDeleted && r.Chance(6) {
+			// one of several parts is deleted again (never the only one: a message whose parts are all
+			// deleted is outside what the properties describe)
+			p.Deleted = true
+			anyDeleted = true
 		}
 		spc.Parts = append(spc.Parts, p)
 	}
@@ -619,6 +903,9 @@ func genSpec(r *Rng, o genOpts) *MsgSpec {
 		}
 		spc.Files = append(spc.Files, f)
 	}
+	if !o.noVariants && r.Chance(50) {
+		spc.Variant = r.U64() | 1
+	}
 	return spc
 }
 
@@ -627,6 +914,51 @@ func max(a, b int) int {
 		return a
 	}
 	return b
+}
+
+// expandedGen: the generic header operations with the convenience setters replaced by what they are
+// documented to set (for the oracles; Disposition-Notification-To carries no value to compare)
+func (sp *MsgSpec) expandedGen() []GenOp {
+	var out []GenOp
+	for _, g := range sp.Gen {
+		v0 := ""
+		if len(g.Values) > 0 {
+			v0 = g.Values[0]
+		}
+		switch g.Conv {
+		case "":
+			out = append(out, g)
+		case "bulk":
+			out = append(out, GenOp{Key: "Precedence", Values: []string{"bulk"}}, GenOp{Key: "X-Auto-Response-Suppress", Values: []string{"All"}})
+		case "importance-normal":
+		case "importance-low", "importance-nonurgent":
+			out = append(out, GenOp{Key: "Importance", Values: []string{map[string]string{"importance-low": "low", "importance-nonurgent": "non-urgent"}[g.Conv]}},
+				GenOp{Key: "Priority", Values: []string{"0"}}, GenOp{Key: "X-Priority", Values: []string{"5"}}, GenOp{Key: "X-MSMail-Priority", Values: []string{"0"}})
+		case "importance-high", "importance-urgent":
+			out = append(out, GenOp{Key: "Importance", Values: []string{map[string]string{"importance-high": "high", "importance-urgent": "urgent"}[g.Conv]}},
+				GenOp{Key: "Priority", Values: []string{"1"}}, GenOp{Key: "X-Priority", Values: []string{"1"}}, GenOp{Key: "X-MSMail-Priority", Values: []string{"1"}})
+		case "org":
+			out = append(out, GenOp{Key: "Organization", Values: []string{v0}})
+		case "ua":
+			out = append(out, GenOp{Key: "User-Agent", Values: []string{v0}}, GenOp{Key: "X-Mailer", Values: []string{v0}})
+		case "msgid":
+			out = append(out, GenOp{Key: "Message-ID", Values: []string{"<" + v0 + ">"}})
+		case "mdn":
+			out = append(out, GenOp{Key: "Disposition-Notification-To"})
+		}
+	}
+	return out
+}
+
+// liveParts: the body parts that were not deleted again
+func (sp *MsgSpec) liveParts() []PartSpec {
+	var out []PartSpec
+	for _, p := range sp.Parts {
+		if !p.Deleted {
+			out = append(out, p)
+		}
+	}
+	return out
 }
 
 func (sp *MsgSpec) shape() string {
